@@ -4,11 +4,11 @@ from common import *
 
 ID = "C12"
 GEN = ["Units"]
-THEOREMS = ["C12_neq", "C12_refl", "C12_refl_number", "C12_number_eq_sym", "C12_numeric_eq_sym", "C12_sym",
+THEOREMS = ["C12_neq", "C12_refl", "C12_refl_number", "C12_string_eq_sym", "C12_number_eq_sym", "C12_numeric_eq_sym", "C12_sym",
             "C12_sym_general", "C12_refuted_sym_two_units", "C12_trichotomy", "C12_refuted_trichotomy_calc",
             "C12_refuted_trichotomy_unitless"]
 COQ_HEADER = ("From Coq Require Import String List ZArith NArith Bool.\n"
-              "From RV Require Import Model.Numeric Model.ValueEq Run.C12.\nImport ListNotations.\n"
+              "From RV Require Import Model.Numeric Model.CssStr Model.ValueEq Run.C12.\nImport ListNotations.\n"
               "Local Open Scope string_scope.\nLocal Open Scope Z_scope.")
 RUN_EXPR = "Run.C12.run"
 RULE = ("ordered pairs (a, b) of generated SassScript values: numbers (0..4 ulp apart, near 0/1/powers of ten, "
@@ -18,7 +18,7 @@ RULE = ("ordered pairs (a, b) of generated SassScript values: numbers (0..4 ulp 
         "a==b, b==a, a!=b, a<b, a>b, a==a; distinct = distinct pair text; non-trivial = a and b have the same kind")
 EXHAUSTIVE = {"quick": False, "thorough": False}
 TRUSTED = ["Spec/CssUnits.v same_group: which units can be compared",
-           "strings are modelled for escape-free text only; colours and function values are outside the model (clauses are still checked on the implementation's answers)",
+           "strings: Model/CssStr.v (css_eq / css_unquote, shared with C27); the stored value and quotes of every string operand are read from rsass's introspection text of that operand (text between the quotes = stored value; valid because the generated strings contain no quote characters and no private-use code points); colours and function values are outside the model (clauses are still checked on the implementation's answers)",
            "the `calculated` flag of an operand inside a comparison is taken from the operand's syntactic kind (literal / parenthesised arithmetic: true; calc(): false), validated by the correspondence on < and >"]
 ASSUMPTIONS = ["symmetry is proved for map-free values whose numbers have aligned units (same unit set or one unitless); for two DIFFERENT convertible units (each direction converts the other operand, with its own rounding) and for maps (first-match lookup over a non-transitive equality) it is checked on rsass's answers only",
                "map comparisons involving numbers with two different units are outside the model (the model evaluates the inner comparisons left-to-right, the code right-to-left)"]
@@ -56,8 +56,22 @@ def num_leaf(rng, x=None, unit=None):
 SPECIAL_NUMS = [("num", "calc(1)", False), ("num", "(0.5+0.5)", True), ("num", "calc(1px)", False),
                 ("num", "(0/0)", True), ("num", "(1/0)", True), ("num", "0", True), ("num", "(0*-1)", True),
                 ("num", "1e400", True), ("num", "calc(0.5 + 0.5)", False)]
-STRS = [("str", "a", False), ("str", "a", True), ("str", "b", False), ("str", "a b", True), ("str", "ab", True),
-        ("str", "ab", False), ("str", "", True)]
+# string operands by SOURCE text; each group spells the same text (escape-free / with an escape kept in the stored
+# value: escaped hyphen, space, backslash, control character / the other quote style)
+SGROUPS = [["a", '"a"', "'a'"], ["b", '"b"'], ["ab", '"ab"'], ['""'],
+           ["a-b", '"a-b"', '"a\\-b"', "'a-b'", 'unquote("a-b")'],
+           ['unquote("a b")', '"a b"', '"a\\ b"'],
+           ['"a\\\\b"', 'unquote("a\\\\b")'],
+           ['"a\\a b"', 'unquote("a\\a b")'],
+           ['"x\\-y\\ z"', 'unquote("x-y z")', '"x-y z"']]
+STRS = [("sraw", t) for g in SGROUPS for t in g]
+
+
+def same_text(rng, v):
+    for g in SGROUPS:
+        if v[1] in g:
+            return ("sraw", rng.choice(g))
+    return v
 OTHERS = [("other", "red"), ("other", "#f00"), ("other", "rgb(255, 0, 0)"), ("other", "hsl(0, 100%, 50%)"),
           ("other", "blue"), ("other", "rgba(255, 0, 0, 0.5)"), ("other", "get-function(\"abs\")"),
           ("other", "hwb(0 0% 0%)"), ("other", "rgb(255, 0, 0.00000001)"),
@@ -90,7 +104,7 @@ def gen_value(rng, depth=0, in_list=False):
         return ("list", [gen_value(rng, depth + 1, True) for _ in range(n)], sep, br)
     n = rng.choice([0, 1, 2, 2])
     keys = rng.sample(["a", "b", "c", "d"], n)
-    return ("map", [(("str", k, False), gen_value(rng, depth + 1, True)) for k in keys])
+    return ("map", [(("sraw", k), gen_value(rng, depth + 1, True)) for k in keys])
 
 
 def perturb(rng, v):
@@ -111,8 +125,8 @@ def perturb(rng, v):
         if c < 0.9 and x == 1.0:
             return rng.choice(SPECIAL_NUMS)
         return ("num", num_text(x * rng.choice([1 + 2.0**-52, 1 - 2.0**-52, 1 + 2.0**-51, 2.0])) + u, True)
-    if k == "str":
-        return ("str", v[1], not v[2]) if (rng.random() < 0.6 and v[1].isalpha()) else rng.choice(STRS)
+    if k == "sraw":
+        return same_text(rng, v) if rng.random() < 0.7 else rng.choice(STRS)
     if k == "list":
         items, sep, br = list(v[1]), v[2], v[3]
         c = rng.random()
@@ -150,8 +164,8 @@ def text(v, top=True):
     k = v[0]
     if k == "num":
         return v[1]
-    if k == "str":
-        return '"%s"' % v[1] if v[2] else v[1]
+    if k == "sraw":
+        return v[1]
     if k in ("other", "othernan"):
         return v[1]
     if k in ("null", "true", "false"):
@@ -175,7 +189,7 @@ def text(v, top=True):
 
 def num_leaves(v, out):
     k = v[0]
-    if k == "num":
+    if k in ("num", "sraw"):
         out.append(v[1])
     elif k == "list":
         for i in v[1]:
@@ -203,16 +217,19 @@ CORPUS = [(("num", "1", True), ("num", "0.9999999999999998", True)),
           (("list", [], 0, False), ("map", [])),
           (("map", []), ("list", [], 0, False)),
           (("list", [], 0, True), ("map", [])),
-          (("str", "a", True), ("str", "a", False)),
+          (("sraw", '"a"'), ("sraw", "a")),
+          (("sraw", "a-b"), ("sraw", '"a\\-b"')), (("sraw", '"a\\-b"'), ("sraw", "a-b")),
+          (("sraw", 'unquote("a b")'), ("sraw", '"a\\ b"')), (("sraw", '"a\\ b"'), ("sraw", 'unquote("a b")')),
+          (("list", [("sraw", "a-b"), ("num", "1", True)], 1, False), ("list", [("sraw", '"a\\-b"'), ("num", "1", True)], 1, False)),
           (("list", [("num", "1", True), ("num", "2", True)], 1, False), ("list", [("num", "1", True), ("num", "2", True)], 2, False)),
           (("list", [("num", "1", True), ("num", "2", True)], 1, False), ("list", [("num", "1", True), ("num", "2", True)], 1, True)),
           (("list", [("num", "1", True), ("num", "0.9999999999999998", True)], 1, False), ("list", [("num", "0.9999999999999998", True), ("num", "1", True)], 1, False)),
-          (("map", [(("str", "a", False), ("num", "1", True)), (("str", "b", False), ("num", "2", True))]),
-           ("map", [(("str", "b", False), ("num", "2", True)), (("str", "a", False), ("num", "1", True))])),
-          (("map", [(("str", "a", False), ("num", "1", True))]),
-           ("map", [(("str", "a", False), ("num", "1", True)), (("str", "b", False), ("num", "2", True))])),
-          (("map", [(("str", "a", False), ("num", "1", True)), (("str", "b", False), ("num", "2", True))]),
-           ("map", [(("str", "a", False), ("num", "1", True))])),
+          (("map", [(("sraw", "a"), ("num", "1", True)), (("sraw", "b"), ("num", "2", True))]),
+           ("map", [(("sraw", "b"), ("num", "2", True)), (("sraw", "a"), ("num", "1", True))])),
+          (("map", [(("sraw", "a"), ("num", "1", True))]),
+           ("map", [(("sraw", "a"), ("num", "1", True)), (("sraw", "b"), ("num", "2", True))])),
+          (("map", [(("sraw", "a"), ("num", "1", True)), (("sraw", "b"), ("num", "2", True))]),
+           ("map", [(("sraw", "a"), ("num", "1", True))])),
           (("other", "red"), ("other", "#f00")), (("other", "red"), ("other", "hsl(0, 100%, 50%)")),
           (("null",), ("null",)), (("true",), ("false",)), (("null",), ("false",)),
           (("num", "0", True), ("num", "(0*-1)", True)),
@@ -301,8 +318,18 @@ def vterm(v, leaves):
         if any(ch in u for ch in " */^"):
             raise Bad()
         return f"(VNum (num_of {cz(int(f[1]))} {cstring(u)}) {cbool(v[2])})", u
-    if k == "str":
-        return f"(VStr {cbytes(v[1])} {cbool(v[2])})", ""
+    if k == "sraw":
+        tag, f = leaves.pop(0)
+        if not (tag == "ok" and f[0] == b"val" and f[1] == b"string"):
+            raise Bad()
+        t = f[2].decode("utf-8")
+        if len(t) >= 2 and t[0] == t[-1] and t[0] in "\"'":
+            q, stored = ("QDouble" if t[0] == '"' else "QSingle"), t[1:-1]
+        else:
+            q, stored = "QNone", t
+        if '"' in stored or "'" in stored:
+            raise Bad()
+        return f"(VStr (mkStr {ccps(stored)} {q}))", ""
     if k == "other":
         return "VOther", ""
     if k == "othernan":
